@@ -20,7 +20,7 @@ pub struct Root {
 
 pub fn scenario_for(r: &Root, strategy: Strategy, comp_id: u128) -> Scenario {
     let pols = (0..r.prog.parties).map(|p| server::policy_for(&r.prog, comp_id, p, r.leader, r.inputs[p], r.out_mask[p])).collect();
-    Scenario { policies: vec![pols], concurrency: 2, strategy, gate_msgs: true, fail_rpc: None, injections: vec![], skip_schedule: vec![], max_steps: 20_000, fail_outputs: false, alt_policies: vec![] }
+    Scenario { policies: vec![pols], concurrency: 2, strategy, gate_msgs: true, gate_replies: false, fail_rpc: None, injections: vec![], skip_schedule: vec![], max_steps: 20_000, fail_outputs: false, alt_policies: vec![] }
 }
 
 /// The C13 oracle on one quiescent execution of one computation.
@@ -83,7 +83,11 @@ pub fn roots(tier: &str, seed: u64) -> Vec<Root> {
                 let inputs: Vec<u64> = (0..n as u64).map(|p| (seed.wrapping_mul(31) + k * 17 + p * 101) % 256).collect();
                 let dfs_budget = if n == 2 { if thorough { 600 } else { 120 } } else if thorough { 900 } else { 40 };
                 v.push(Root { prog: prog.clone(), leader, out_mask: m.clone(), inputs: inputs.clone(), mode: "dfs", budget: dfs_budget, seed: seed ^ k });
-                v.push(Root { prog: prog.clone(), leader, out_mask: m.clone(), inputs, mode: "random", budget: if thorough { 60 } else { 12 }, seed: seed ^ (k << 20) });
+                v.push(Root { prog: prog.clone(), leader, out_mask: m.clone(), inputs: inputs.clone(), mode: "random", budget: if thorough { 60 } else { 12 }, seed: seed ^ (k << 20) });
+                if mi < 2 {
+                    // answers of coordination RPCs travel independently of requests (separately gated)
+                    v.push(Root { prog: prog.clone(), leader, out_mask: m.clone(), inputs, mode: "random-replies", budget: if thorough { 80 } else { 12 }, seed: seed ^ (k << 24) ^ 0x5e });
+                }
             }
         }
     }
@@ -99,7 +103,8 @@ pub fn run_root(r: &Root) -> Value {
     let mut complete = false;
     let mut sample = Value::Null;
     let mut once = |strategy: Strategy, execs: &mut u64| -> Option<(Vec<usize>, Vec<usize>)> {
-        let sc = scenario_for(r, strategy, 0x1000 + *execs as u128);
+        let mut sc = scenario_for(r, strategy, 0x1000 + *execs as u128);
+        sc.gate_replies = r.mode == "random-replies";
         let rec = server::explore(&sc);
         *execs += 1;
         rpcs_released += rec.rpcs.iter().filter(|x| x.fate == "delivered").count() as u64;
@@ -153,7 +158,7 @@ pub fn child(tier: &str, seed: u64, a: shard::ShardArgs) {
 
 pub fn run(tier: &str, seed: u64) -> i32 {
     let mut rep = Report::new("C13", tier, seed, "exploration");
-    rep.rule = "real PolicyState actors behind a gated in-process PolicyClient on a paused-clock current-thread runtime; per (program with constants from none/some/all parties, leader, output-destination mask): depth-first enumeration of schedule-arrival and coordination-RPC delivery orders by stateless re-execution (complete for n=2 within the budget, bounded for n=3 in quick) plus seeded random orders that also interleave the MPC messages. Oracle at exact quiescence: every schedule Ok, exactly one output per destination and equal to the native reference of the program, no output elsewhere, every actor stopped without panic, all permits back. distinct = (program, leader, mask, order of choices); non-trivial = the execution had at least one branching point".into();
+    rep.rule = "real PolicyState actors behind a gated in-process PolicyClient on a paused-clock current-thread runtime; per (program with constants from none/some/all parties, leader, output-destination mask): depth-first enumeration of schedule-arrival and coordination-RPC delivery orders by stateless re-execution (complete for n=2 within the budget, bounded for n=3 in quick) plus seeded random orders that also interleave the MPC messages, and seeded random orders in which the answers of coordination RPCs are delivered as separate decisions (answers overtaken by later requests). Oracle at exact quiescence: every schedule Ok, exactly one output per destination and equal to the native reference of the program, no output elsewhere, every actor stopped without panic, all permits back. distinct = (program, leader, mask, order of choices); non-trivial = the execution had at least one branching point".into();
     rep.assumptions = vec!["quiescence = runtime idle under the paused clock, no pending delivery, no extra OS thread (/proc/self/task)".into(), "MPC message deliveries do not branch in the DFS (oldest first); random mode interleaves them".into()];
     let rs = roots(tier, seed);
     let results = shard::run_parent("C13", tier, seed, rs.len(), crate::runner::threads(), &[]);
